@@ -566,7 +566,9 @@ def kinds_in(f, wanted):
 
 
 def repaired(y, x):
-    """An unpickled copy with the two internal attributes __getstate__ drops put back."""
+    """An unpickled copy with the two internal attributes put back by hand (what __getstate__ / __setstate__ do
+    themselves since the repair of C11-unpickled-lost-internal-state): used only to ATTRIBUTE a divergence of an
+    unpickled copy to the loss of that state, never to hide it."""
     y.__dict__.setdefault("_none_fields", set(x.__dict__.get("_none_fields", ())))
     y.__dict__["_instantiated"] = True
     return y
@@ -609,7 +611,7 @@ def check_copy(kind, x, c):
             fields = set(type(x).get_all_fields_by_name().keys())
             if lost and all(k not in fields for k in lost):
                 key = "pickle/extra-attrs-lost"
-            elif public_state(x)[1] == public_state(y)[1] and sx[3] and sy[3] is None:
+            elif public_state(x)[1] == public_state(y)[1] and sx[3] and not sy[3]:
                 key = "pickle/lost-internal-state/none-fields-unequal"
         fails.append((key, "%s(x) == x is %r, x == %s(x) is %r: %s -> %s" % (kind, e1, kind, e2, x, y), {}))
     elif hash(y) != hash(x):
@@ -1067,13 +1069,20 @@ def sharing_check(rep, stream, c, ctx, kw, hcases, shape_key):
 
 def deep_lockstep_check(rep, stream, c, ctx, kw, shape_key):
     """Lock-step changes of EVERY mutable object reachable from the copy (any depth) against a regularly
-    constructed instance; the unpickled copy gets the two internal attributes __getstate__ drops put back
-    first (their loss is the known finding C11-unpickled-lost-internal-state, detected by the histories)."""
+    constructed instance.  The unpickled copy is taken as the library hands it out; when it diverges and the
+    divergence disappears once `_none_fields` / `_instantiated` are put back by hand, the failure is keyed by that
+    root cause (the repaired defect C11-unpickled-lost-internal-state, should it return)."""
     cls = ctx.classes[c["name"]]
     build = lambda: cls(**S.realize_kwargs(kw, ctx))
     for kind in ("deepcopy", "pickle"):
+        lost_internal = False
         try:
-            res = CG.deep_lockstep(build, kind, public_state, same_outcome, repaired if kind == "pickle" else None)
+            res = CG.deep_lockstep(build, kind, public_state, same_outcome, None)
+            if res and kind == "pickle":
+                try:
+                    lost_internal = not CG.deep_lockstep(build, kind, public_state, same_outcome, repaired)
+                except Exception:  # noqa
+                    lost_internal = False
         except (pickle.PicklingError, TypeError, AttributeError) as ex:
             if kind == "pickle" and not _picklable(cls, kw, ctx):
                 continue
@@ -1084,6 +1093,8 @@ def deep_lockstep_check(rep, stream, c, ctx, kw, shape_key):
         rep.stat(stream, kind + ":deep-lockstep:" + ("diverges" if res else "ok"))
         for sym, k, path, what in res:
             key = "independence/%s/deep:%s:%s" % (kind, sym, k)
+            if lost_internal:
+                key = "pickle/lost-internal-state/deep:%s:%s" % (sym, k)
             if kind == "pickle" and sym == "initial-state-differs":
                 x = build()
                 lost = [a for a, _ in inst_state(x)[2] if a not in dict(inst_state(CG.make_copy(kind, x))[2])]
